@@ -383,7 +383,7 @@ void regressions() {
     CHECK(comps(*t) == tv, "C08|two-vectors-share-storage", "regression: assigning to a consumed operand changed the result (d=%d form=%d)", d, form);
     CHECK(a.Dim() == (unsigned)d && &a[0] != &(*t)[0], "C08|two-vectors-share-storage", "regression: consumed operand and result share storage (d=%d form=%d)", d, form);
   }
-  // f529a91: element-wise expressions over empty operands (null dereference at -O2)
+  // e0e8929: element-wise expressions over empty operands (null dereference at -O2)
   {
     SU_vector a(3); SU_vector b(std::move(a));
     SU_vector c = std::move(a) * 2.0; SU_vector e1, e2, x(2);
